@@ -1,6 +1,5 @@
 (** C14 — records and tuples: the representation relation [rep b vs] ("the inactive builder [b] is what the
-    values [vs] appended at its position have produced"), contexts with tuple / record frames, the fragment
-    predicates.  Definitions and basic lemmas only.
+    values [vs] appended at its position have produced"), contexts with tuple / record frames.  Definitions and basic lemmas only.
 
     [rep] is a GHOST-HISTORY relation: with records the values already stored change when a later record brings a
     new key (an older row reads None there), so "values so far ++ [v]" (Invariant.pushed) is not stable; what is
@@ -48,19 +47,7 @@ Section PIndX.
     end.
 End PIndX.
 
-(* ------------------------------------------------------------------ the fragment *)
-(* well-formed Python values (Spec.pywf: distinct dict keys) whose records are not NAMED BY THE EMPTY STRING.
-   The exclusion is necessary: see [empty_name_refuted] in Proofs_C14b.v (an unnamed RecordBuilder stores name_ = ""
-   and beginrecord_check("") compares strings, so a record named "" merges into an unnamed one before it). *)
-Fixpoint pyok (v : pyval) : bool :=
-  match v with
-  | PList l | PTup l => forallb pyok l
-  | PRec nm fs =>
-      negb (oname_eqb nm (Some [])) && keys_nodup (map fst fs) &&
-      (fix go (fs : list (name * pyval)) : bool :=
-         match fs with [] => true | (_, x) :: t => pyok x && go t end) fs
-  | _ => true
-  end.
+(* the fragment is Spec.pywf itself: well-formed Python values (distinct dict keys) *)
 
 (* ------------------------------------------------------------------ what the sub-builders have received *)
 Definition nonnone (v : pyval) : bool := match v with PNone => false | _ => true end.
@@ -135,7 +122,7 @@ Fixpoint rep (b : builder) (vs : list pyval) {struct b} : Prop :=
       (fix cols (l : list builder) (j : nat) : Prop :=
          match l with [] => True | c :: t => rep c (map (slot j) vs) /\ cols t (S j) end) cs O
   | BRecord cs keys rn nullp len begun ni ntt =>
-      begun = false /\ len = zlen vs /\ (nullp = true -> rn = []) /\ (nullp = false -> rn <> []) /\
+      begun = false /\ len = zlen vs /\
       forallb (isrec (rname rn nullp)) vs = true /\ keys = keys_of vs /\
       (fix cols (l : list builder) (ks : list name) : Prop :=
          match l, ks with
@@ -184,7 +171,7 @@ Qed.
 
 Lemma rep_record cs keys rn nullp len begun ni ntt vs :
   rep (BRecord cs keys rn nullp len begun ni ntt) vs <->
-  begun = false /\ len = zlen vs /\ (nullp = true -> rn = []) /\ (nullp = false -> rn <> []) /\
+  begun = false /\ len = zlen vs /\
   forallb (isrec (rname rn nullp)) vs = true /\ keys = keys_of vs /\ rcols vs cs keys.
 Proof.
   cbn [rep].
